@@ -102,6 +102,34 @@ MUTANTS = {
 # `selftest.py benign` runs them; they exercise parts of the simulator that the unchanged tree never does
 # (simulator-aware locks created by repo code, per-call memoisation of include files).
 BENIGN = {
+    "C03": [
+        ("enum_values_printed_in_lower_case_and_two_spaces_after_keywords", [
+            (PP, "                return str(value).upper()  # value is from a set list, no need for quote", "                return str(value).lower()"),
+            (PP, "            aligned_max_indent = len(key) + 1", "            aligned_max_indent = len(key) + 2"),
+        ]),
+    ],
+    "C09": [
+        ("raw_schema_files_cached_at_class_level_read_only", [
+            (VA, "    def __init__(self):\n        self.schemas = {}", "    _RAW: dict = {}\n\n    def __init__(self):\n        self.schemas = Validator._RAW"),
+        ]),
+    ],
+    "C17": [
+        ("getitem_checks_membership_before_lookup", [
+            (OD, "        try:\n            return OrderedDict.__getitem__(self, key)\n        except KeyError:\n            return self.__missing__(key)",
+                 "        if OrderedDict.__contains__(self, key):\n            return OrderedDict.__getitem__(self, key)\n        return self.__missing__(key)"),
+        ]),
+    ],
+    "C18": [
+        ("find_written_as_a_loop", [
+            (DU, "    return next((item for item in lst if key in item and item[key] == value), None)",
+                 "    for item in lst:\n        if key in item and item[key] == value:\n            return item\n    return None"),
+        ]),
+    ],
+    "C20": [
+        ("validate_prints_an_extra_progress_line_per_file", [
+            (CL, "        fn = click.format_filename(fn)\n", "        fn = click.format_filename(fn)\n        click.echo(f\"checking {fn} ...\")\n"),
+        ]),
+    ],
     "C12": [
         ("lock_protected_parser_cache", [
             (UT, "def loads(\n    s: str,",
@@ -111,9 +139,13 @@ BENIGN = {
         ]),
     ],
     "C15": [
-        ("per_call_memo_of_include_files_keyed_by_resolved_path_and_depth_checked", [
-            (PA, "                try:\n                    include_text = self.open_file(inc_file_path)\n                except IOError as ex:",
-                 "                try:\n                    if _nested_includes == 0 and not hasattr(self, '_memo_depth'):\n                        pass\n                    include_text = self.open_file(inc_file_path)\n                except IOError as ex:"),
+        # a CORRECT memo: raw text per resolved path, dropped at every top-level include, depth checks still run
+        ("per_call_memo_of_raw_include_text_keyed_by_resolved_path", [
+            (PA, "                    include_text = self.open_file(inc_file_path)\n", "                    include_text = self._memo_open(inc_file_path, _nested_includes)\n"),
+            (PA, "    def _assign_comments(self, _tree: Any) -> None:",
+                 "    def _memo_open(self, path, level):\n        if level == 0 or not hasattr(self, \"_inc_memo\"):\n            self._inc_memo = {}\n"
+                 "        if path not in self._inc_memo:\n            self._inc_memo[path] = self.open_file(path)\n        return self._inc_memo[path]\n\n"
+                 "    def _assign_comments(self, _tree: Any) -> None:"),
         ]),
     ],
 }
